@@ -3,7 +3,8 @@
 # usage: run_baseline.sh [repo_dir]
 REPO=${1:-/repo}
 OUT=$(mktemp /tmp/junit.XXXXXX.xml)
-cd "$REPO" && /venv/bin/python -m pytest -ra -q -p no:cacheprovider --timeout=900 --continue-on-collection-errors --junitxml="$OUT" >/dev/null 2>&1
+BT=$(mktemp -d /tmp/pytest-bt.XXXXXX)
+cd "$REPO" && PYTHONPATH="$REPO/src" /venv/bin/python -m pytest -ra -q -p no:cacheprovider --timeout=900 --continue-on-collection-errors --basetemp="$BT" --junitxml="$OUT" >/dev/null 2>&1
 /venv/bin/python - "$OUT" <<'PY'
 import json,sys,xml.etree.ElementTree as ET
 base=json.load(open('/root/.vp/BASELINE.json'))
@@ -18,5 +19,5 @@ for m in missing[:40]: print("  MISSING",m)
 sys.exit(1 if missing else 0)
 PY
 rc=$?
-rm -f "$OUT"
+rm -rf "$OUT" "$BT"
 exit $rc
